@@ -23,6 +23,7 @@
 //! usage: vh hist <seed> <n> <tier> <mode> [child <b>]      mode ∈ {c01 … c20}
 use crate::common::*;
 use crate::fam::compose::gen_prim;
+use crate::fam::pm::{window, CRYSTALS};
 use spdcalc::beam::{Beam, IdlerBeam};
 use spdcalc::dim::ucum::{DEG, K, M, RAD, S};
 use spdcalc::jsa::{jsa_raw, FrequencySpace, JointSpectrum};
@@ -801,6 +802,43 @@ fn differ(a: &[String], b: &[String], tol: f64) -> Option<String> {
   None
 }
 
+/// every built-in crystal at round temperatures, as the FIRST lookup of a brand-new thread, against the value a warm
+/// thread returns right after a lookup at another temperature (C01 / C02 modes, once per run)
+fn cold_crystals(ctx: &mut Ctx, pred: &str) {
+  let temps = [273.15, 293.15, 297.65, 298.15, 373.15, 223.15, 473.15, 1.0, 300.0];
+  for c in CRYSTALS.iter() {
+    let (lo, hi) = window(c);
+    for (k, t) in temps.iter().enumerate() {
+      let l = lo + (hi - lo) * (0.2 + 0.07 * k as f64);
+      let (c1, t1) = (c.clone(), *t);
+      let cold = std::thread::spawn(move || guard(|| {
+        let i = c1.get_indices(l * M, t1 * K).value_unsafe;
+        vec![i.x, i.y, i.z]
+      }))
+      .join()
+      .ok()
+      .flatten();
+      let warm = guard(|| {
+        let _ = c.get_indices(l * M, (t + 1.0) * K);
+        let i = c.get_indices(l * M, *t * K).value_unsafe;
+        vec![i.x, i.y, i.z]
+      });
+      ctx.count("hist/cold-crystal");
+      let same = match (&cold, &warm) {
+        (Some(a), Some(b)) => a.iter().zip(b.iter()).all(|(x, y)| x.to_bits() == y.to_bits() || (x.is_nan() && y.is_nan())),
+        (None, None) => true,
+        _ => false,
+      };
+      ctx.s(
+        pred,
+        same,
+        if same { "history/ok" } else { "cold-start/get_indices/round-temperature" },
+        &if same { String::new() } else { format!("crystal={} wavelength_m={:e} temperature_K={} first_lookup_on_new_thread={:?} warm_thread={:?}", c, l, t, cold, warm) },
+      );
+    }
+  }
+}
+
 pub fn run(ctx: &mut Ctx) {
   let mode = ctx.extra.first().cloned().unwrap_or_else(|| "c07".into());
   if ctx.extra.get(1).map(|s| s.as_str()) == Some("child") {
@@ -812,6 +850,9 @@ pub fn run(ctx: &mut Ctx) {
   let tw = tweaks();
   let exe = std::env::current_exe().expect("current_exe");
   let tl = tol(&mode);
+  if mode == "c01" || mode == "c02" {
+    cold_crystals(ctx, &pred);
+  }
   for b in 0..ctx.n {
     let base = match base_case(ctx.seed, b, &mode) {
       Some(c) => c,
@@ -903,6 +944,60 @@ pub fn run(ctx: &mut Ctx) {
     }
     if mode == "c12" {
       continue;
+    }
+    // cold start at round values: a cache whose "empty" sentinel is a legitimate value (0 degC, angle 0, position 0)
+    // is wrong only when that value is the FIRST one a thread sees; evaluate such cases first-thing on a brand-new
+    // thread and again on this (warm) thread right after the base case
+    let round: Vec<(&'static str, fn(&mut Case))> = vec![
+      ("temperature=0C", |c| c.spdc.crystal_setup.temperature = 273.15 * K),
+      ("temperature=20C", |c| c.spdc.crystal_setup.temperature = 293.15 * K),
+      ("temperature=0K+1", |c| c.spdc.crystal_setup.temperature = 1.0 * K),
+      ("crystal_theta=0", |c| c.spdc.crystal_setup.theta = 0.0 * RAD),
+      ("crystal_theta=90deg", |c| c.spdc.crystal_setup.theta = std::f64::consts::FRAC_PI_2 * RAD),
+      ("crystal_phi=0", |c| c.spdc.crystal_setup.phi = 0.0 * RAD),
+      ("signal_angles=0", |c| {
+        c.spdc.signal.set_angles(0.0 * RAD, 0.0 * RAD);
+      }),
+      ("waist_positions=0", |c| {
+        c.spdc.signal_waist_position = 0.0 * M;
+        c.spdc.idler_waist_position = 0.0 * M;
+      }),
+      ("power=1mW", |c| c.spdc.pump_average_power = 1.0 * spdcalc::dim::ucum::MILLIW),
+    ];
+    for (rname, rf) in round.iter() {
+      let mut c = base.clone();
+      if guard(|| rf(&mut c)).is_none() {
+        continue;
+      }
+      c.gen = 1000 + ctx.dist.len();
+      let (m2, c2) = (mode.clone(), c.clone());
+      let cold = std::thread::Builder::new().stack_size(16 << 20).spawn(move || {
+        let mut cache = Spec::new();
+        observe(&m2, &c2, &mut cache)
+      });
+      let cold = match cold.map(|h| h.join()) {
+        Ok(Ok(o)) => o,
+        _ => continue,
+      };
+      let mut cache_w = Spec::new();
+      let _ = observe(&mode, &base, &mut cache_w);
+      let warm = observe(&mode, &c, &mut cache_w);
+      ctx.count("hist/cold-start");
+      for ((n1, t1), (n2, t2)) in cold.iter().zip(warm.iter()) {
+        if n1 != n2 {
+          break;
+        }
+        let bad = differ(t1, t2, tl);
+        let sig = if bad.is_none() { "history/ok".to_string() } else { format!("cold-start/{}/{}", n1.split('/').next().unwrap_or(n1), rname) };
+        let detail = match &bad {
+          None => String::new(),
+          Some(w) => format!(
+            "mode={} base={} seed={} observable={} round_value={} first_call_on_a_new_thread_vs_warm_thread: {} crystal={} pm={}",
+            mode, b, ctx.seed, n1.replace(' ', "_"), rname, w, base.spdc.crystal_setup.crystal, base.spdc.crystal_setup.pm_type
+          ),
+        };
+        ctx.s(&pred, bad.is_none(), &sig, &detail);
+      }
     }
     let names: Vec<String> = o0.iter().map(|x| x.0.clone()).collect();
     let uses_spectrum = !matches!(mode.as_str(), "c01" | "c02" | "c03" | "c04" | "c05" | "c06" | "c12" | "c13" | "c18");
